@@ -955,6 +955,10 @@ def diff_helper(func, arr, *args, **kwargs):
 
 @implements(np.diff)
 def diff(a, *args, **kwargs):
+    for key in ("prepend", "append"):
+        if key in kwargs and hasattr(a, "units"):
+            # values joined to the data before differencing are expressed in its units
+            kwargs[key] = _values_in(a.units, kwargs[key])
     return diff_helper(np.diff, a, *args, **kwargs)
 
 
